@@ -90,6 +90,13 @@ def special_family():
         out.append(_mounted(tasks, mount, 'pattern'))
         tasks = {'Fa': T('f_a'), 'Cons': T('cons', inputs=[{'how': 'pattern', 'ref': '~nomatch.*'}])}
         out.append(_mounted(tasks, mount, 'pattern-empty'))
+    # patterns and nested namespaces: a `~` pattern sees only tasks of EXACTLY its own namespace, not of an enclosing or enclosed one
+    for where in ('outer', 'inner'):
+        tasks = {'Fa': T('f_a'), 'Fb': T('f_b'), 'Cons': T('cons', inputs=[{'how': 'pattern', 'ref': '~f_.*'}])}
+        out.append({'name': f'pattern-nested-{where}', 'tasks': tasks, 'configs': {
+            'leaf': {'medium': 'json', 'tasks': ['Fb'] + (['Cons'] if where == 'inner' else []), 'values': {}},
+            'mid': {'medium': 'json', 'tasks': ['Fa'] + (['Cons'] if where == 'outer' else []), 'values': {}, 'uses': [{'config': 'leaf', 'as': 'sub'}]},
+            'top': {'medium': 'json', 'tasks': [], 'values': {}, 'uses': [{'config': 'mid', 'as': 'm1'}]}}, 'root': 'top', 'variants': {'v': []}})
     # `~~` from a root-level task across two mountings of the same file
     tasks = {'X': T('x_a'), 'Y': T('y'), 'All': T('all', inputs=[{'how': 'pattern', 'ref': '~~x_.*'}])}
     out.append({'name': 'pattern-anyns', 'tasks': tasks, 'configs': {
@@ -253,6 +260,49 @@ def check_world(desc, parameter_mode):
         scratch.drop(root)
 
 
+def check_multichain_name_mode():
+    """name mode with a shared task registry (MultiChain): every member chain's graph has exactly its own declared edges,
+    whatever was wired for the shared task objects by the chains built before it (both build orders)"""
+    from taskchain import MultiChain
+
+    out = []
+    T = lambda name, inputs=(): {'name': name, 'group': None, 'params': [], 'inputs': list(inputs), 'data': 'json'}  # noqa
+    tasks = {'Voc': T('vocabulary'), 'Feat': T('features', [{'how': 'opt_name', 'ref': 'vocabulary', 'default': None}]), 'Ma': T('metric_a'), 'Mb': T('metric_b'),
+             'Rep': T('report', [{'how': 'pattern', 'ref': '~metric_.*'}, bc('Feat')])}
+    desc = {'name': 'multichain-name-mode', 'tasks': tasks, 'configs': {
+        'core': {'medium': 'json', 'tasks': ['Feat', 'Rep', 'Ma'], 'values': {}},
+        'small': {'medium': 'json', 'tasks': [], 'values': {}, 'uses': [{'config': 'core'}]},
+        'full': {'medium': 'json', 'tasks': ['Voc', 'Mb'], 'values': {}, 'uses': [{'config': 'core'}]}}, 'root': 'small', 'variants': {'v': []}}
+    for order in (['small', 'full'], ['full', 'small']):
+        root = scratch.fresh('c08m')
+        w = worlds.World(desc, root)
+        try:
+            cfgs = [w.make_config('v', base_dir=root + '/data', root=r) for r in order]
+            mc = MultiChain(cfgs, parameter_mode=False)
+            for r in order:
+                ch = mc[r]
+                d = dict(desc, root=r)
+                m = refmodel.Model(worlds.apply_variant(d, 'v'), w.modname)
+                if set(ch.tasks) != set(m.tasks):
+                    out.append(('member chain tasks differ from the declared ones', f'build order {order}, member {r}: {sorted(ch.tasks)} vs {sorted(m.tasks)}'))
+                    continue
+                obj = {fn: ch.tasks[fn] for fn in m.tasks}
+                exp_edges = {(id(obj[t]), id(obj[fn])) for fn in m.tasks for t in m.succ(fn)}
+                got_edges = {(id(a), id(b)) for a, b in ch.graph.edges}
+                names = {id(o): fn for fn, o in obj.items()}
+                if exp_edges != got_edges:
+                    show = lambda es: sorted((names.get(a, '<task of another chain>'), names.get(b, '<task of another chain>')) for a, b in es)  # noqa
+                    out.append(('graph of a member chain differs from its declared inputs', f'build order {order}, member {r}: unexpected {show(got_edges - exp_edges)}, missing {show(exp_edges - got_edges)}'))
+                if {id(n) for n in ch.graph.nodes} != set(names):
+                    out.append(('graph of a member chain holds tasks of another chain', f'build order {order}, member {r}'))
+        except Exception as e:  # noqa
+            out.append(('name-mode MultiChain cannot be built', f'{order}: {type(e).__name__}: {e}'))
+        finally:
+            w.dispose()
+            scratch.drop(root)
+    return out
+
+
 def _job(descs):
     import tcv
 
@@ -288,6 +338,11 @@ def run(tier, seed):
     res = Result()
     for r in pmap(_job, [fam[i::n] for i in range(n)]):
         res.merge(r)
+    import tcv
+    tcv.quiet_library()
+    res.add('evaluations', 2)
+    for kind, msg in check_multichain_name_mode():
+        res.violations.append(Violation(f'multichain-name-mode: {kind}', msg, {'multichain': True}))
     res.coverage['configurations'] = len(fam)
     res.coverage['states'] = len(fam) * 2
     res.coverage['traces_validated_against_impl'] = res.coverage['evaluations']
@@ -306,5 +361,7 @@ def replay(case):
     import tcv
 
     tcv.quiet_library()
+    if case.get('multichain'):
+        return [Violation(f'multichain-name-mode: {k}', m, case) for k, m in check_multichain_name_mode()]
     bad = check_world(case['desc'], case['pm']) or []
     return [Violation(f'{case["desc"]["name"]}: {k}', m, case) for k, m in bad]
